@@ -338,7 +338,12 @@ def run(desc, ctx):
     chained = []
     if kind == 'patterns':
         for r in list(reqs):
-            if r['delay'] is not None and r['lose_reply'] == 0 and len(r['reply']) > len(r['pattern']) and rnd.random() < 0.35:
+            # (the parent's answer must be its own: no other request of the case expects a longer prefix of those bytes,
+            # or that request would be the one the answer cancels and the parent would still be pending)
+            swallowed = any(q is not r and q['chan'] == r['chan'] and len(q['pattern']) > len(r['pattern']) and
+                            bytes(q['pattern']) == bytes(r['reply'][:len(q['pattern'])]) for q in reqs)
+            if r['delay'] is not None and r['lose_reply'] == 0 and len(r['reply']) > len(r['pattern']) and not swallowed and \
+                    rnd.random() < 0.35:
                 u2 = r['uid'] + 40
                 chained.append({'uid': u2, 'chan': r['chan'], 'pattern': r['pattern'], 'T': r['T'], 'at': None, 'chain_of': r['uid'],
                                 'lose_tx': rnd.choice((1, 1, 2)), 'lose_reply': 0, 'delay': rnd.choice((0.0, 0.5 * r['T'])),
